@@ -551,6 +551,8 @@ class CPreProcessor:
         # print(repl_map)
         if self.verbose:
             self.logger.debug("replacement map: %s", repl_map)
+        # An argument is macro expanded once, also when it is used twice:
+        expanded_args = {}
         sle = LineParser(macro.value)
         while not sle.at_end:
             token = sle.consume()
@@ -575,7 +577,11 @@ class CPreProcessor:
                 used_in_concat = sle.previous == "##" or sle.peak == "##"
                 if not used_in_concat:
                     # Do macro expansion on the argument:
-                    replacement = self.expand_token_sequence(replacement)
+                    if token.val not in expanded_args:
+                        expanded_args[token.val] = self.expand_token_sequence(
+                            replacement
+                        )
+                    replacement = expanded_args[token.val]
                 replacement = self.copy_tokens(replacement, token.space)
                 if used_in_concat and not replacement:
                     # An empty argument next to '##' is a placemarker.
